@@ -7,7 +7,8 @@
 From Coq Require Import NArith ZArith List Bool.
 From Morlock.Model Require Import Bits Attacks.
 From Morlock.Spec Require Import Chess.
-From Morlock.Lemmas Require Import AttackGeometry AttackGeometry_Extra.
+From Morlock.Model Require Import Move Position Abs.
+From Morlock.Lemmas Require Import AttackGeometry AttackGeometry_Extra PositionLemmas MoveGen1 MoveGen2.
 From Morlock.Impl Require Import ImplBoard.
 Import ListNotations.
 Open Scope N_scope.
@@ -63,6 +64,19 @@ Proof. exact bits_asc_spec. Qed.
 Theorem C06_bits_asc_nodup : forall b, NoDup (bits_asc b).
 Proof. exact bits_asc_nodup. Qed.
 Print Assumptions C06_bits_asc.
+
+(** Derived queries, for every position satisfying the representation invariant:
+    "is this square attacked / defended" and "is the king in check" agree with the specification
+    (some piece of the attacking colour geometrically attacks the square). *)
+Theorem C06_is_attacked : forall pos c sq, Inv pos -> (c = 0 \/ c = 1) -> sq < 64 ->
+  is_attacked pos c sq = attacked (brd (abs_pos pos)) (other (color_of c)) (N.to_nat sq).
+Proof. exact is_attacked_iff. Qed.
+Print Assumptions C06_is_attacked.
+
+Theorem C06_is_checked : forall pos c, Inv pos -> (c = 0 \/ c = 1) -> popcount (pget pos c King) = 1 ->
+  is_checked pos c = in_check (brd (abs_pos pos)) (color_of c).
+Proof. exact is_checked_iff. Qed.
+Print Assumptions C06_is_checked.
 
 (** Non-vacuity: a rook on d4 (square 28) with blockers on d6 and f4 *)
 Example C06_example :
